@@ -51,6 +51,15 @@ def main(out):
     evil2 = mk("EvilRoot", "evil", "EvilRoot", "evil", ca_exts(None))
     write(out, "trust_root", ca=[root])
     write(out, "trust_evil", ca=[evil2])
+    # trust bundles of several roots: "trust_multi" = unrelated roots and then the real one, below the 2048 octets a connection keeps (tls_init copies the bundle);
+    # "trust_big" = unrelated roots only, above that size -- an endpoint given it either refuses to start or trusts none of the peers of these sets
+    bigs = [mk("BigRoot%d" % i, "other", "BigRoot%d" % i, "other", ca_exts(None)) for i in range(8)]
+    multi = bigs[:3] + [root]
+    while len(b"".join(multi)) > 2048: multi = multi[1:]
+    big = list(bigs)
+    assert len(b"".join(big)) > 2048 + 400 and len(multi) >= 2
+    write(out, "trust_multi", ca=multi)
+    write(out, "trust_big", ca=big)
     # intermediates: for depth d the chain below the root has d-1 CAs; pathLen = number of CAs below
     ca1_p0 = mk("VCA1", "ca1", "VRoot", "root", ca_exts(0))
     ca1_p1 = mk("VCA1", "ca1", "VRoot", "root", ca_exts(1))
